@@ -163,13 +163,14 @@ func (rg *rootGeneratorPipeline) worker(ctx context.Context, wg *sync.WaitGroup,
 			verifPoint("generate.recv")
 
 			var (
-				sc      = bufio.NewScanner(strings.NewReader(block))
 				root    *Node
 				nodes   = newStack()
 				counter = newCounter()
 			)
-			for sc.Scan() {
-				currentNode, err := rg.nodeGenerator.generate(sc.Text(), counter.next())
+			// The splitter has already cut the input into rows: a block is its rows, each followed by LF.
+			// Scanning the block again would strip a second trailing CR from a row.
+			for _, row := range strings.Split(strings.TrimSuffix(block, "\n"), "\n") {
+				currentNode, err := rg.nodeGenerator.generate(row, counter.next())
 				if err != nil {
 					sendErr(ctx, errc, err)
 					return
@@ -190,13 +191,9 @@ func (rg *rootGeneratorPipeline) worker(ctx context.Context, wg *sync.WaitGroup,
 				}
 
 				if !nodes.dfs(currentNode) {
-					sendErr(ctx, errc, &inputFormatError{row: sc.Text()})
+					sendErr(ctx, errc, &inputFormatError{row: row})
 					return
 				}
-			}
-			if err := sc.Err(); err != nil {
-				sendErr(ctx, errc, err)
-				return
 			}
 			if root == nil {
 				continue // blank-only block
